@@ -182,15 +182,18 @@ Print Assumptions C07_predict_depends_only_on_data_model_lookups.
 Print Assumptions C07_predict_equals_fresh.
 Print Assumptions C07_invalidate_reflects_new_data.
 
-(* realtime.compare_records: with include_found_by_blocking_rules in the cache key (repaired tree)
-   every call, cached or not, runs SQL generated for its own flag - for every sequence of calls.
-   SCOPE: the theorem is about the FLAG only.  The settings identity is part of the key by construction of the model
-   ([rc_settings]); how that identity is computed (id() of a SettingsCreator, json of a dict, a path string, weakref
-   expiry, the dialect) is not modelled - sequences over several settings objects / dicts, both flags and both cache
-   modes are compared with an uncached reference by X only. *)
+(* realtime.compare_records and its module-level SQLCache.  Settings are SettingsCreator objects (address = id(),
+   object identity, model), dicts (base content + the ComparisonCreator.configure() values) or strings; events are
+   calls (settings, use_sql_from_cache, include_found_by_blocking_rules) and garbage collections of SettingsCreator
+   objects.  [rt_wf] is what Python guarantees: a call passes a live object, an address has one live owner at a time
+   (reused only after the owner died), an object keeps address and model.  With the three key ingredients that
+   translators/c07_realtime.py reads off the source on every run - the flag in the key (7.8), the configure() values in
+   the key of a dict holding creators, the weak reference CALLED before an id()-keyed entry is trusted - every call of
+   every well-formed sequence, cached or not, runs the SQL of its own settings and its own flag.
+   Not modelled (X / trusted): the dialect, Path file contents changing between calls, json key order of dicts. *)
 Theorem C07_realtime_cache_transparent :
-  forall cs, Forall2 (fun c out => fst out = rc_flag c) cs (rt_run true [] cs).
-Proof. intros. apply rt_transparent. intros k v []. Qed.
+  forall evs, rt_wf ([], []) evs = true -> Forall2 rt_out_ok evs (rt_run rt_good ([], []) evs).
+Proof. intros. eapply rt_transparent; eauto. intros e []. Qed.
 Print Assumptions C07_realtime_cache_transparent.
 
 (* ------------------------------------------------------------------ the finding classes, refuted on the model
@@ -280,16 +283,38 @@ Example C07_lookup_overwrite_repaired :
   predict_prov s = predict_prov (fresh_of KI keqbI s 777 888).
 Proof. vm_compute. reflexivity. Qed.
 
-(* (c) DESIGN 7.8: realtime cache key without the flag - a cached call with the flag after a call
-   without it runs the SQL generated without the column *)
+(* each key ingredient is necessary: without it a well-formed sequence gets another call's SQL *)
+(* (c) DESIGN 7.8: the flag is not in the key *)
 Theorem C07_realtime_cache_transparent_refuted_without_flag_in_key :
-  exists cs, ~ Forall2 (fun c out => fst out = rc_flag c) cs (rt_run false [] cs).
+  exists evs, rt_wf ([], []) evs = true /\
+    ~ Forall2 rt_out_ok evs (rt_run {| rp_flag_in_key := false; rp_configured_in_key := true; rp_liveness_called := true |} ([], []) evs).
 Proof.
-  exists [ {| rc_settings := 0; rc_use_cache := true; rc_flag := false |};
-           {| rc_settings := 0; rc_use_cache := true; rc_flag := true |} ].
-  intros H. vm_compute in H. inversion H as [|? ? ? ? H1 H2]; subst. inversion H2 as [|? ? ? ? H3 H4]; subst.
-  cbn in H3. discriminate H3.
+  exists [RtCall (RObj 7 1 3) true false; RtCall (RObj 7 1 3) true true].
+  split; [reflexivity|]. intros H. apply rt_all_okb_of_Forall2 in H. vm_compute in H. discriminate H.
 Qed.
+(* two settings dicts holding creator objects that differ only in ComparisonCreator.configure(...) share an entry *)
+Theorem C07_realtime_cache_transparent_refuted_without_configure_values_in_key :
+  exists evs, rt_wf ([], []) evs = true /\
+    ~ Forall2 rt_out_ok evs (rt_run {| rp_flag_in_key := true; rp_configured_in_key := false; rp_liveness_called := true |} ([], []) evs).
+Proof.
+  exists [RtCall (RDict 4 1) true false; RtCall (RDict 4 2) true false].
+  split; [reflexivity|]. intros H. apply rt_all_okb_of_Forall2 in H. vm_compute in H. discriminate H.
+Qed.
+(* the weak reference is not called: the entry of a collected SettingsCreator is served to a new object at its address *)
+Theorem C07_realtime_cache_transparent_refuted_without_liveness_call :
+  exists evs, rt_wf ([], []) evs = true /\
+    ~ Forall2 rt_out_ok evs (rt_run {| rp_flag_in_key := true; rp_configured_in_key := true; rp_liveness_called := false |} ([], []) evs).
+Proof.
+  exists [RtCall (RObj 7 1 3) true false; RtDel 1; RtCall (RObj 7 2 5) true false].
+  split; [reflexivity|]. intros H. apply rt_all_okb_of_Forall2 in H. vm_compute in H. discriminate H.
+Qed.
+Print Assumptions C07_realtime_cache_transparent_refuted_without_configure_values_in_key.
+Print Assumptions C07_realtime_cache_transparent_refuted_without_liveness_call.
+(* non-vacuity of rt_wf: address reuse after collection is well-formed, reuse while alive is not *)
+Example C07_rt_wf_examples :
+  rt_wf ([], []) [RtCall (RObj 7 1 3) true false; RtDel 1; RtCall (RObj 7 2 5) true true; RtCall (RDict 4 1) true false] = true /\
+  rt_wf ([], []) [RtCall (RObj 7 1 3) true false; RtCall (RObj 7 2 5) true false] = false.
+Proof. split; reflexivity. Qed.
 Print Assumptions C07_realtime_cache_transparent_refuted_without_flag_in_key.
 
 (* ------------------------------------------------------------------ non-vacuity *)
